@@ -140,6 +140,13 @@ LEAFGEN = {
 KEYABLE = [k for k in LEAFGEN if k != "unit"]
 
 
+def nullish(v):
+    """is this value written as JSON null (so that wrapping it in Some cannot round trip)?"""
+    while v["k"] == "newtype_struct":
+        v = v["item"]
+    return v["k"] in ("none", "unit", "some", "unit_struct")
+
+
 def random_tree(rng, depth, path, leaves, addr):
     """-> (val, ty).  leaves collects (path steps, leaf kind, address in the recorded call tree)."""
     if depth == 0 or rng.chance(1, 4):
@@ -153,7 +160,8 @@ def random_tree(rng, depth, path, leaves, addr):
     if k == 0:
         sub = []
         v, t = random_tree(rng, depth - 1, path + ["some"], sub, addr + [("item",)])
-        if v["k"] in ("none", "unit", "some", "unit_struct"):
+        if nullish(v):
+            # Some(x) where x itself is written as null (unit, none, a newtype around one of them) is not representable
             v, t = LEAFGEN["i32"](rng)
             sub = [(path + ["some"], "i32", addr + [("item",)])]
         leaves.extend(sub)
